@@ -728,7 +728,14 @@ func (s *AbsfsNFS) RenameWithContext(ctx context.Context, oldDir *NFSNode, oldNa
 	if err != nil {
 		return fmt.Errorf("rename: failed to rename %s to %s: %w", oldPath, newPath, err)
 	}
-	// Invalidate caches and negative cache entries
+	// Invalidate caches and negative cache entries. When a directory moves,
+	// everything cached below the old and the new path is stale as well.
+	s.attrCache.InvalidateTree(oldPath)
+	s.attrCache.InvalidateTree(newPath)
+	if s.dirCache != nil {
+		s.dirCache.InvalidateTree(oldPath)
+		s.dirCache.InvalidateTree(newPath)
+	}
 	s.attrCache.Invalidate(oldPath)
 	s.attrCache.Invalidate(newPath)
 	s.attrCache.Invalidate(oldDir.path)
